@@ -28,6 +28,143 @@ func runDrain(seed uint64, scale int, out string, _ string) *summary {
 	rounds := 400 * scale
 	var hookSeed atomic.Uint64
 	var delays atomic.Int64
+	// ---- (a) scripted windows of the protocol, reached by parking goroutines at hook points:
+	//   V1  the maintainer is parked just before its final status transition (hook 2); a writer pushes
+	//       its event, loads the status (processing-to-idle) and is parked before acting on it (hook 8);
+	//       the maintainer finishes (status idle, lock released, nothing to reschedule); the writer
+	//       resumes: its transition to processing-to-required fails and it must start over;
+	//   V2  the same without parking the writer (its transition wins; the maintainer must reschedule);
+	//   V3  the writer is parked after loading "idle" while another writer runs a complete cycle.
+	scripted := 60 * scale
+	for sc := 0; sc < scripted; sc++ {
+		variant := sc % 3
+		var armed2, armed8 atomic.Int32
+		var passed6 atomic.Int64
+		arrived2, arrived8 := make(chan struct{}, 1), make(chan struct{}, 1)
+		release2, release8 := make(chan struct{}), make(chan struct{})
+		otter.VerifHook = func(id int) {
+			switch id {
+			case 2:
+				if armed2.CompareAndSwap(1, 0) {
+					arrived2 <- struct{}{}
+					<-release2
+				}
+			case 8:
+				if armed8.CompareAndSwap(1, 0) {
+					arrived8 <- struct{}{}
+					<-release8
+				}
+			case 6:
+				passed6.Add(1)
+			}
+		}
+		var atomicEv, asyncEv atomic.Int64
+		c := otter.Must(&otter.Options[int, int]{
+			MaximumSize:      1 + sc%4,
+			OnAtomicDeletion: func(e otter.DeletionEvent[int, int]) { atomicEv.Add(1) },
+			OnDeletion:       func(e otter.DeletionEvent[int, int]) { asyncEv.Add(1) },
+			Logger:           &otter.NoopLogger{},
+		})
+		desc := fmt.Sprintf("scripted window %d variant V%d", sc, variant+1)
+		ok := true
+		waitCh := func(ch chan struct{}) bool {
+			select {
+			case <-ch:
+				return true
+			case <-time.After(2 * time.Second):
+				return false
+			}
+		}
+		doneB := make(chan struct{})
+		switch variant {
+		case 0, 1:
+			armed2.Store(1)
+			c.Set(1, 1)
+			if !waitCh(arrived2) {
+				armed2.Store(0)
+				ok = false
+				break
+			}
+			if variant == 0 {
+				armed8.Store(1)
+			}
+			go func() { c.Set(2, 2); close(doneB) }()
+			if variant == 0 {
+				if !waitCh(arrived8) {
+					armed8.Store(0)
+				}
+			} else {
+				waitCh(doneB)
+			}
+			p6 := passed6.Load()
+			close(release2)
+			for i := 0; i < 4000 && passed6.Load() == p6; i++ {
+				time.Sleep(50 * time.Microsecond)
+			}
+			time.Sleep(300 * time.Microsecond)
+			if variant == 0 {
+				close(release8)
+			}
+			waitCh(doneB)
+		default:
+			armed8.Store(1)
+			go func() { c.Set(2, 2); close(doneB) }()
+			if waitCh(arrived8) {
+				c.Set(3, 3) // a complete cycle by another writer while the first one holds a stale "idle"
+				for i := 0; i < 4000; i++ {
+					if st, wb := otter.VerifDrainState(c); st == 0 && wb == 0 {
+						break
+					}
+					time.Sleep(50 * time.Microsecond)
+				}
+				close(release8)
+			}
+			waitCh(doneB)
+		}
+		sum.Cases++
+		sum.Ops += 2
+		if !ok {
+			sum.Dist["scripted_window_not_reached"]++
+			otter.VerifHook = nil
+			continue
+		}
+		// all calls have returned: only atomic loads from here on
+		stable := 0
+		var st uint32
+		var wb uint64
+		deadline := time.Now().Add(2 * time.Second)
+		for time.Now().Before(deadline) {
+			st, wb = otter.VerifDrainState(c)
+			if st == 0 && wb == 0 {
+				stable++
+				if stable >= 3 {
+					break
+				}
+			} else {
+				stable = 0
+			}
+			time.Sleep(200 * time.Microsecond)
+		}
+		otter.VerifHook = nil
+		if stable < 3 {
+			sum.fail("C14", "stranded", "maintenance is stranded: writes were recorded but the cache reports outstanding maintenance and nothing will run it",
+				fmt.Sprintf("%s drainStatus=%d writeBuffer=%d", desc, st, wb))
+			t.line("W %d %d stranded %d %d", sc, variant, st, wb)
+			continue
+		}
+		for i := 0; i < 2000 && asyncEv.Load() != atomicEv.Load(); i++ {
+			time.Sleep(200 * time.Microsecond)
+		}
+		if asyncEv.Load() != atomicEv.Load() {
+			sum.fail("C14", "notifications-pending", "deletion notifications are still pending although maintenance is idle", desc)
+		}
+		if a := otter.VerifAudit(c); len(a.Window)+len(a.Probation)+len(a.Protected) != len(a.Table) || uint64(len(a.Table)) > a.Maximum {
+			sum.fail("C14", "writes-not-applied", "a recorded write was not applied to the eviction policy", fmt.Sprintf("%s table=%d", desc, len(a.Table)))
+		}
+		t.line("W %d %d ok", sc, variant)
+		sum.Dist[fmt.Sprintf("scripted_window_V%d", variant+1)]++
+		seen[fmt.Sprintf("scripted/%d", variant)] = true
+	}
 	for rd := 0; rd < rounds; rd++ {
 		maximum := 2 + r.intn(20)
 		writers := 1 + r.intn(6)
